@@ -127,7 +127,8 @@ theorem pop_core {w e0 w' : World} {h : SlabID} {pc pc' : Cont} {keep : List Sla
     WorldOkPK D rank (fun x => KeptOf keep pc x ∧ (w.cont? x).isSome) w' cx'.ctr ∧ cx1.ctr ≤ cx'.ctr ∧
       (∃ c'', w'.cont? h = some c'' ∧ Cont.SameData pc' c'') ∧
       PopFrame w w' h pc keep ∧ HandleOk w' h ∧
-      (∀ z, HandleOk w z → (w'.cont? z).isSome → HandleOk w' z) := by
+      (∀ z, HandleOk w z → (w'.cont? z).isSome → HandleOk w' z) ∧
+      (∀ z, z ≠ h → rank h ≤ rank z → NotBelow w (disposedOf keep pc) z → w'.cont? z = w.cont? z) := by
   let K : SlabID → Prop := fun x => KeptOf keep pc x ∧ (w.cont? x).isSome
   let ds := disposed keep es
   have hds : ∀ e ∈ ds, e ∈ pc.storedElems := fun e he => (hes e).mp (mem_disposed.mp he).1
@@ -165,7 +166,13 @@ theorem pop_core {w e0 w' : World} {h : SlabID} {pc pc' : Cont} {keep : List Sla
   have hsome3 : ∀ z, (w'.cont? z).isSome = ((e0.forgetElems ds).cont? z).isSome := by
     intro z
     rw [← S3.cont?, F3.sig.isSome, cont?_prune]
-  refine ⟨Hfin, hc3, ?_, ⟨?_, ?_, ?_, ?_⟩, ?_, ?_⟩
+  refine ⟨Hfin, hc3, ?_, ⟨?_, ?_, ?_, ?_⟩, ?_, ?_, ?_⟩
+  rotate_right
+  · -- the strong frame: what is neither below `h` in rank nor disposed of is untouched
+    intro z hz hrk hnb
+    have hnb' : NotBelow w ds z := fun e he => hnb e ((hdseq e).mp he)
+    have := (E.mid_other hnb' hz).1
+    rw [← S3.cont?, F3.above z hz hrk, cont?_prune, this]
   · have := F3.self
     rw [cont?_prune, P.now] at this
     obtain ⟨c'', hc'', hsd⟩ := this.get_some
